@@ -159,6 +159,10 @@ class Tr:
             return f'(sqrtF {self.expr(args[0])})'
         if f in ('int', 'float') and len(args) == 1:
             return self.expr(args[0])
+        # np.hypot(a, b) as a value: sqrtF (a^2 + b^2), the square root being a function parameter
+        if f == 'np.hypot' and len(args) == 2 and not n.keywords:
+            self.params.add('sqrtF')
+            return f'(sqrtF (({self.expr(args[0])}) ^ 2 + ({self.expr(args[1])}) ^ 2))'
         if f == 'np.floor':
             return f'(⌊{self.expr(args[0])}⌋ : Int)'
         if f == 'np.ceil':
@@ -183,6 +187,8 @@ class Tr:
         if f == 'RegionBoundingBox_from_float':
             return 'BBox.fromFloat ' + ' '.join(f'({self.expr(a)})' for a in args)
         if isinstance(n.func, ast.Attribute) and n.func.attr == '__class__' and len(args) == 2:
+            if getattr(self, 'pair_points', False):
+                return f'({self.expr(args[0])}, {self.expr(args[1])})'   # self.__class__(x, y) as a pair
             return f'(Pt.mk {self.expr(args[0])} {self.expr(args[1])})'   # self.__class__(x, y)
         if f == 'slice' and len(args) == 2:
             return f'(Slice.mk {self.expr(args[0])} {self.expr(args[1])})'
@@ -309,12 +315,21 @@ GROUPS = {'C19': [
     ('annulus_bounding_box', 'regions.shapes.annulus:AnnulusPixelRegion.bounding_box', 'α', 'BBox'),
 ], 'C15': [
     ('pixcoord_rotate', 'regions.core.pixcoord:PixCoord.rotate', 'α', 'Pt α'),
+], 'C20': [
+    ('pixcoord_add', 'regions.core.pixcoord:PixCoord.__add__', 'α', 'α × α'),
+    ('pixcoord_sub', 'regions.core.pixcoord:PixCoord.__sub__', 'α', 'α × α'),
+    ('pixcoord_separation', 'regions.core.pixcoord:PixCoord.separation', 'α', 'α'),
+    ('pixcoord_rotate', 'regions.core.pixcoord:PixCoord.rotate', 'α', 'α × α'),
 ]}
+
+# groups whose generated file must not import Impl.Shapes (C20's model has its own point functions on pairs)
+GROUP_IMPORTS = {'C20': 'import RegionsVerif.Impl.PixCoord\nimport Mathlib.Algebra.Order.Floor.Defs\n'}
 
 
 def translate_one(name, src, numtype, rtype, ret='plain'):
     fn = get_source(src)
     tr = Tr(numtype, ret)
+    tr.pair_points = (rtype == 'α × α')
     # `self.center.separation(pixcoord) < self.radius` (circle): inline PixCoord.separation = hypot(dx, dy)
     body = list(fn.body)
     expr = tr.block(InlineSeparation().visit(ast.Module(body=body, type_ignores=[])).body)
@@ -375,7 +390,10 @@ def main(groups=None):
     for group, specs in GROUPS.items():
         if groups is not None and group not in groups:
             continue
-        out = [HEADER.replace('@GROUP@', group)]
+        hdr = HEADER.replace('@GROUP@', group)
+        if group in GROUP_IMPORTS:
+            hdr = hdr.replace('import RegionsVerif.Impl.BBox\nimport RegionsVerif.Impl.Shapes\n', GROUP_IMPORTS[group])
+        out = [hdr]
         for spec in specs:
             name, src = spec[:2]
             try:
